@@ -333,6 +333,54 @@ func (g *c15gen) tieDiamond() ([]c15File, string) {
 	return fs, target
 }
 
+// tieCollide: two candidates a, b with the same training data, so that their scores are exactly equal, and a target
+// whose description contains a word that is ALSO the booking's commodity, quantity or counter-account when written in
+// lower case - two distinct pieces of evidence with one spelling, with different frequencies in the training data.
+// The choice among tied candidates must not depend on the order in which such evidence is added up (seeded change
+// C15g-evidence-tokens-tagged ordered the tagged evidence by its spelling alone, i.e. the two in map order, and the
+// float sums of the tied candidates then differed in the last bit from run to run).
+func (g *c15gen) tieCollide() (string, string) {
+	r := g.r
+	accs := append([]string(nil), c15Accounts...)
+	r.shuffle(len(accs), func(i, j int) { accs[i], accs[j] = accs[j], accs[i] })
+	a, b, c := accs[0], accs[1], accs[2]
+	com, other := "CHF", "USD"
+	if r.chance(40) {
+		com, other = "USD", "CHF"
+	}
+	qty, qty2 := pick(r, []string{"50", "10", "1200.00"}), "7"
+	word := pick(r, []string{strings.ToLower(com), qty, strings.ToLower(c)})
+	extra := pick(r, c15Words)
+	date := g.date()
+	side := r.intn(2)
+	trx := func(x, desc, q, cm string) string {
+		if side == 0 {
+			return fmt.Sprintf("%s \"%s\"\n%s %s %s %s\n\n", date, desc, x, c, q, cm)
+		}
+		return fmt.Sprintf("%s \"%s\"\n%s %s %s %s\n\n", date, desc, c, x, q, cm)
+	}
+	var chunks []string
+	n := r.rangeInt(3, 5)
+	for _, x := range []string{a, b} {
+		for k := 0; k < n; k++ {
+			desc, q, cm := extra, qty2, other
+			if k == 0 {
+				desc = word + " " + extra // the word: in 1 of n
+			}
+			if k < 2 {
+				q, cm = qty, com // the commodity and the quantity: in 2 of n
+			}
+			chunks = append(chunks, trx(x, desc, q, cm))
+		}
+	}
+	r.shuffle(len(chunks), func(i, j int) { chunks[i], chunks[j] = chunks[j], chunks[i] })
+	target := trx(g.ph, word+" "+extra, qty, com)
+	if r.chance(40) {
+		target += trx(g.ph, extra+" "+word, qty, com)
+	}
+	return strings.Join(chunks, ""), target
+}
+
 func (g *c15gen) target() string {
 	if g.r.chance(4) {
 		return g.date() + " open\n" // does not parse
@@ -393,6 +441,10 @@ func genC15(out *caseWriter, seed uint64, n int, args []string) error {
 			var fs []c15File
 			fs, target = g.tieDiamond()
 			train = c15EncodeTree(fs)
+		} else if r.chance(7) {
+			var tr string
+			tr, target = g.tieCollide()
+			train = hex.EncodeToString([]byte(tr))
 		} else if r.chance(50) {
 			train = c15EncodeTree(g.spread(chunks)) // the training journal over an include tree
 		}
